@@ -67,6 +67,9 @@ QPREDS = {
     "qlt": ("a < 1", lambda d: d.get("a") is None or (_num(d.get("a")) and d.get("a") < 1)),
     "qgt": ("a > 0", lambda d: _num(d.get("a")) and d.get("a") > 0),
     "qnest": ("(a = 0 OR a = 1) AND b = 'x'", lambda d: d.get("a") in (0, 1) and d.get("b") == "x"),
+    "qnot": ("NOT (a = 1)", lambda d: not (d.get("a") == 1)),
+    "qnotand": ("NOT (a = 1 AND b = 'y')", lambda d: not (d.get("a") == 1 and d.get("b") == "y")),
+    "qnotin": ("NOT (b IN ('x', 'z'))", lambda d: d.get("b") not in ("x", "z")),
 }
 
 
